@@ -57,7 +57,7 @@ def setup(mode):
 
 
 class Scenario:
-    def __init__(self, shape, codes, rev=False, token=None, total=0, reqs=None, premark=None, resubmit=None, total2=0, reqs2=None):
+    def __init__(self, shape, codes, rev=False, token=None, total=0, reqs=None, premark=None, resubmit=None, total2=0, reqs2=None, key_base=0):
         self.deps = SHAPES[shape] if isinstance(shape, str) else shape
         self.n = len(self.deps)
         self.codes = codes
@@ -67,6 +67,7 @@ class Scenario:
         self.reqs = reqs or [None] * self.n
         self.total2 = total2
         self.reqs2 = reqs2 or [None] * self.n
+        self.key_base = key_base  # distinct job keys / identities for a second scheduler in the same world
         self.premark = premark or [False] * self.n
         self.resubmit = resubmit  # index of a job re-submitted after it failed (or None)
         self.configs = [None] * self.n
@@ -104,6 +105,7 @@ class Scenario:
         self.launcher = sched.make_launcher(root / "conn")
         self.xp = SB.experiment(root / "ws", name, launcher=self.launcher)
         self.xp.__enter__()
+        self.xp.central.loop.xp = self.xp
         self.token = None
         if self.token_kind == "process":
             self.token = ProcessCounterToken(self.total)
@@ -113,7 +115,8 @@ class Scenario:
         if any(r is not None for r in self.reqs2):
             self.token2 = ProcessCounterToken(self.total2)
         for i in range(self.n):
-            w.codes[i] = self.codes[i]
+            w.codes[self.key_base + i] = self.codes[i]
+            w.reqs[self.key_base + i] = self.reqs[i]
         # main-thread program: submissions in order, then wait
         self.main_pc = 0
         if program is not None:
@@ -129,8 +132,8 @@ class Scenario:
     def _config(self, i):
         U = self.U
         after = [self.outputs[j] for j in self.deps[i]]
-        cfg = U.SJ(x=i, after=after)
-        object.__setattr__(cfg, "xv_key", i)
+        cfg = U.SJ(x=self.key_base + i, after=after)
+        object.__setattr__(cfg, "xv_key", self.key_base + i)
         if self.reqs[i] is not None:
             cfg.add_dependencies(self.token.dependency(self.reqs[i]))
         if self.reqs2[i] is not None:
@@ -149,13 +152,17 @@ class Scenario:
                 return j is not None and j._future is not None and j._future.done()
             return True
 
-        self.w.add(("main",) + tuple(step), lambda: self._main(step), enabled)
+        ev = self.w.add(("main", self.pid) + tuple(step) if self.key_base else ("main",) + tuple(step), lambda: self._main(step), enabled)
+        self.main_events = getattr(self, "main_events", []) + [ev]
 
     def _main(self, step):
         import experimaestro.scheduler.base as SB
 
+        from experimaestro.scheduler.workspace import Workspace
+
         self.w.current_pid = self.pid
         SB.experiment.CURRENT = self.xp
+        Workspace.CURRENT = self.xp.workspace
         if step[0] == "submit":
             i = step[1]
             cfg = self._config(i)
@@ -257,7 +264,7 @@ class Scenario:
         key = sched.jobkey(job)
         if isinstance(key, tuple):
             key = key[1]
-        return self.reqs[key]
+        return self.w.reqs.get(key)
 
     def _outcome(self, fut):
         import experimaestro.scheduler.base as SB
@@ -286,6 +293,8 @@ class Scenario:
 
     # ------------------------------------------------------------ facts
     def launches(self, key):
+        if isinstance(key, int):
+            key = self.key_base + key
         return [t for t in self.w.trace[self.trace_start:] if t[0] == "launch" and t[1] == key]
 
     def abort(self, how):
@@ -296,7 +305,8 @@ class Scenario:
 
         loop = self.w.loops.get(self.pid)
         # the main thread does not continue its program
-        self.w.events = [e for e in self.w.events if e.label[0] != "main"]
+        mine = getattr(self, "main_events", [])
+        self.w.events = [e for e in self.w.events if not any(e is m for m in mine)]
         if how == "exception":
             try:
                 self.xp.__exit__(RuntimeError, RuntimeError("boom"), None)
@@ -430,3 +440,42 @@ def with_prefixes(cond, depth=2, P=3):
 
     rec([])
     return out
+
+
+def duo(shard, c0, c1, rev, choices, kill_at=None):
+    """Two scheduler processes (own experiment, own CounterToken instance,
+    own loop) sharing one workspace and one token directory; filesystem
+    watcher notifications are external events. Returns (A, B)."""
+    total, reqs = shard["total"], shard["reqs"]
+    A = Scenario("one", [c0], rev=rev, token="file", total=total, reqs=[reqs[0]])
+    A.start(name="x1", pid=1)
+    w = A.w
+    w.fs_events = True
+    B = Scenario("one", [c1], rev=rev, token="file", total=total, reqs=[reqs[1]], key_base=10)
+    B.start(world=w, name="x2", pid=2)
+    w.fs_scan()
+    if kill_at is None:
+        A.run(choices, shard["K"], prefix=shard.get("prefix") or ())
+    else:
+        # scheduler 1 dies after kill_at delivered events
+        k = 0
+        ci = 0
+        while k < kill_at:
+            en = w.enabled()
+            if not en:
+                break
+            if len(en) > 1 and ci < 3:
+                c = pick(choices[ci], len(en))
+                ci += 1
+            else:
+                c = 0
+            w.deliver(en[c])
+            A._monitor()
+            k += 1
+        A.abort("kill")
+        B.run(choices[3:], shard["K"])
+        A.violations += B.violations
+    errs = A.harness_errors() + B.harness_errors()
+    if errs:
+        raise sched.HarnessError("; ".join(errs)[:500])
+    return A, B
